@@ -12,6 +12,10 @@ MC = [
     ("HashJoinOp", "SPECIFICATION Spec\nCONSTANTS P = 3\n  NeedsDrain = TRUE\n  BuildRows = {0,1,2}\n"
      "INVARIANTS DirectoryExclusive ProbeAfterAllInserted DrainAfterAllProbed NoParkedOnSetFlag CountsConsistent\nCHECK_DEADLOCK FALSE\n",
      "phase exclusivity of the hash join's unsynchronised accesses, P=3"),
+    ("HashAggOp", "SPECIFICATION Spec\nCONSTANTS P = 4\n  Distinct = TRUE\nINVARIANTS TypeOK DistinctMergeReadsAllFlushes DistinctAggReadsAllMerges MergeReadsAllFlushes ScanReadsAllMerges ParkedDisjoint\nCHECK_DEADLOCK FALSE\n",
+     "hash aggregate: every phase reads only completely written tables, P=4, DISTINCT"),
+    ("HashAggOp", "SPECIFICATION Spec\nCONSTANTS P = 4\n  Distinct = FALSE\nINVARIANTS TypeOK DistinctMergeReadsAllFlushes DistinctAggReadsAllMerges MergeReadsAllFlushes ScanReadsAllMerges ParkedDisjoint\nCHECK_DEADLOCK FALSE\n",
+     "hash aggregate: every phase reads only completely written tables, P=4, no DISTINCT"),
 ]
 
 QUERIES = [
@@ -72,7 +76,7 @@ def run(tier):
         c["knobs"]["table_chunk_capacity"] = min(c["knobs"]["table_chunk_capacity"], bs)
     send = [{k: v for k, v in c.items() if not k.startswith("_")} for c in cases]
     res = vlib.Driver(nworkers=6, case_timeout=120, mem_gb=4).run(send)
-    task_traces, hj_lines, all_events, lines = [], [], [], []
+    task_traces, hj_lines, ha_lines, all_events, lines = [], [], [], [], []
     meta = {}
     for c, r in zip(cases, res):
         rep.cov["evaluations"] += 1
@@ -96,6 +100,7 @@ def run(tier):
         if t:
             task_traces.append(t)
         hj_lines += conc.hashjoin_traces(r.get("events", []), failed)
+        ha_lines += conc.hashagg_traces(r.get("events", []), failed)
         all_events.append(r.get("events", []))
     # outcomes: a debug assertion / out-of-bounds panic / abort is inadmissible
     wd = vlib.workdir("C16-tv")
@@ -112,15 +117,16 @@ def run(tier):
             rep.mismatch({"family": "unsafe", "why": "outcome", "observed": lines[mm["mismatch"]]["outcome"],
                           "msg": vlib.re.sub(r"\d+", "#", m.get("msg", ""))[:160]}, m)
     for mod, tl, label, fam in (("TraceHashJoin", hj_lines, "hash join phase flags and barriers", "hashjoin-trace"),
+                                ("TraceHashAgg", ha_lines, "hash aggregate phase gates", "hashagg-trace"),
                                 ("TracePrims", conc.generic_primitive_lines(all_events), "waker/count primitives", "prims-trace"),
                                 ("TraceTask", conc.join_task_traces(task_traces), "one execution of a pipeline at a time", "task-trace")):
         for m in conc.validate(rep, mod, tl, f"C16-tv-{fam}", label):
             rep.mismatch({"family": fam, "what": m.get("what"), "ev": m.get("ev"), "lab": m.get("lab")}, m)
-    passes = sum(1 for l in hj_lines if l["ev"] == "Pass")
+    passes = sum(1 for l in hj_lines + ha_lines if l["ev"] == "Pass")
     if not passes:
         rep.tool_error("vacuity: no barrier pass-through events recorded")
     rep.cov["distinct_nontrivial"] = passes
-    rep.cov["families"]["threaded"] = {"sessions": len(cases), "statements": len(lines), "hash_join_events": len(hj_lines),
+    rep.cov["families"]["threaded"] = {"sessions": len(cases), "statements": len(lines), "hash_join_events": len(hj_lines), "hash_aggregate_events": len(ha_lines),
                                       "barrier_passes_checked_against_phase_flags": passes}
     rep.cov["samples"] = [{"sql": meta[i]["sql"], "knobs": meta[i]["knobs"], "outcome": lines[i]["outcome"]} for i in list(meta)[:3]]
     rep.cov["rule"] = ("MC: HashJoinOp.tla phase-exclusivity invariants (directory initialised by exactly one partition while nobody inserts / "
